@@ -602,3 +602,9 @@ M('C09', 'ransac-count-early-exit', C2F, "                for p in points {\n   
 CV2F = 'src/geom2/curve2.rs'
 M('C11', 'curve-circle-quick-reject', CV2F, "        for i in 0..self.count() - 1 {\n            if let Ok(seg) = Segment2::try_new(self.vtx(i), self.vtx(i + 1)) {\n                for p in other.intersection(&seg) {", "        for i in 0..self.count() - 1 {\n            let d0 = other.distance_to(&self.vtx(i));\n            let d1 = other.distance_to(&self.vtx(i + 1));\n            if d0 * d1 > 0.0 {\n                continue;\n            }\n            if let Ok(seg) = Segment2::try_new(self.vtx(i), self.vtx(i + 1)) {\n                for p in other.intersection(&seg) {", 'every-edge')
 M('C11', 'curve-circle-first-hit-only', CV2F, "                for p in other.intersection(&seg) {\n                    points.push(p);\n                }", "                for p in other.intersection(&seg) {\n                    points.push(p);\n                    break;\n                }", 'every-edge')
+M('C12', 'cluster-skip-tests-x-twice', 'src/raster3.rs', "                        if x == 0 && y == 0 && z == 0 {", "                        if x == 0 && y == 0 && x == 0 {", 'skip-origin-only')
+SAMF = 'src/geom3/mesh/sampling.rs'
+M('C15', 'dense-lattice-wrong-anchor', SAMF, "                (ub, vb, face.b)", "                (ub, vb, face.a)", 'sample_dense:lattice')
+M('C15', 'dense-lattice-mixed-edges', SAMF, "                (uc, vc, face.c)", "                (uc, vb, face.c)", 'sample_dense:lattice')
+M('C10', 'bisection-bracket-as-fraction', 'src/airfoil/helpers.rs', "    while (positive.fraction - negative.fraction) * ray.dir().norm() > tol {", "    while positive.fraction - negative.fraction > tol {", 'bracket-is-a-length')
+M('C10', 'converge-tangent-signed-distance', 'src/airfoil/edges.rs', "                measured.push(((x - x0).abs(), camber_dir, max_point));", "                measured.push((x - x0, camber_dir, max_point));", 'ConvergeTangentEdge::find_edge:nearest')
